@@ -229,4 +229,17 @@ def c15(c):
                          "plus Groth16 prove/verify cases under the pinned keys")
 
 
-CHECKS = {"C13": c13, "C14": c14, "C15": c15, "C12": c12, "C17": c17, "C06": c06, "C09": c09, "C10": c10, "C11": c11, "C01": c01, "C02": c02, "C03": c03, "C04": c04, "C05": c05, "C07": c07, "C08": c08}
+def c16(c):
+    build("ark")
+    # one TLC run per trace: the observation tables must span the whole history
+    for i in range(scale(c.tier, 2, 12)):
+        c.trace("ark", "bls", scale(c.tier, 60, 400), module="Pairing.tla", cfg="cfg/Pairing.cfg", nchunks=1, sd=seed() * 100 + i)
+    return c.finish(rule="distinct (event kind, group) combinations; every event compares the crate's engine with the "
+                         "reference engine byte for byte and against the exponent-group model",
+                    assumptions=["the reference engine ark-bls12-377 0.4 is the oracle for byte-level outputs (the pairing "
+                                 "function itself is not transcribed into TLA+); TLC itself checks the G1 generator against the "
+                                 "curve equation and its order, and bilinearity / non-degeneracy / module action through the "
+                                 "functional-and-injective observation tables"])
+
+
+CHECKS = {"C16": c16, "C13": c13, "C14": c14, "C15": c15, "C12": c12, "C17": c17, "C06": c06, "C09": c09, "C10": c10, "C11": c11, "C01": c01, "C02": c02, "C03": c03, "C04": c04, "C05": c05, "C07": c07, "C08": c08}
